@@ -607,18 +607,28 @@ func (fr *Frame) calleeDisplayQuick(c *ssa.CallCommon) string {
 	return "dynamic:" + c.Value.Name()
 }
 
+// inSpare: address a lies in the backing array of slice s but is not one of its first len(s) elements.
+func inSpare(a, s string) string {
+	return fmt.Sprintf("(and (= (root %s) (root (sarr %s))) (not (and (= %s (ea (ea_arr %s) (ea_idx %s))) (= (ea_arr %s) (sarr %s)) (>= (ea_idx %s) (soff %s)) (< (ea_idx %s) (+ (soff %s) (slen %s))))))", a, s, a, a, a, a, s, a, s, a, s, s)
+}
+
 // havocTargets applies an assigns clause to mem.
 func (fr *Frame) havocTargets(mem *MemState, targets []AssignTarget, ec *EvalCtx) {
 	ex := fr.ex
 	// Go memory locations first (addresses evaluated in the pre-state), then model rows (identities in the new state)
 	var ordered []AssignTarget
 	for _, a := range targets {
+		if a.Spare != nil || a.Alloc != nil {
+			ordered = append(ordered, a)
+		}
+	}
+	for _, a := range targets {
 		if a.Deref != nil {
 			ordered = append(ordered, a)
 		}
 	}
 	for _, a := range targets {
-		if a.Deref == nil {
+		if a.Deref == nil && a.Spare == nil && a.Alloc == nil {
 			ordered = append(ordered, a)
 		}
 	}
@@ -660,6 +670,42 @@ func (fr *Frame) havocTargets(mem *MemState, targets []AssignTarget, ec *EvalCtx
 			cur := ex.memGet(mem, an)
 			fv := ex.fresh("row_"+a.Model, rowSort)
 			ex.memSet(mem, an, fmt.Sprintf("(store %s %s %s)", cur, row.T, fv))
+		case a.Alloc != nil:
+			pv := ec.coerce(ec.eval(a.Alloc), SInt)
+			var ks []string
+			for k := range ex.arrSorts {
+				if strings.HasPrefix(k, "M_") || strings.HasPrefix(k, "MH_") || strings.HasPrefix(k, "MV_") || k == "ML" {
+					ks = append(ks, k)
+				}
+			}
+			sort.Strings(ks)
+			for _, an := range ks {
+				if a.AllocClass != "" && an != a.AllocClass {
+					continue
+				}
+				cur := ex.memGet(mem, an)
+				nw := ex.fresh("allochavoc_"+an, ex.arrSorts[an])
+				cond := fmt.Sprintf("(not (= (root a) (root %s)))", pv.T)
+				if !strings.HasPrefix(an, "M_") {
+					cond = "(<= (root a) allocbase)" // maps: only function-local maps may be reached from a local target (stated assumption)
+				}
+				ex.assume(fmt.Sprintf("(forall ((a Int)) (! (=> %s (= (select %s a) (select %s a))) :pattern ((select %s a))))", cond, nw, cur, nw), fr.curReach)
+				ex.memSet(mem, an, nw)
+			}
+		case a.Spare != nil:
+			sv := ec.eval(a.Spare)
+			st, ok := sv.G.Underlying().(*types.Slice)
+			if !ok {
+				panic(evalErr("sparecap: " + exprString(a.Spare) + " is not a slice"))
+			}
+			arrs := map[string]bool{}
+			ex.leafArraysOf(st.Elem(), arrs, map[string]bool{})
+			for _, an := range sortedKeys(arrs) {
+				cur := ex.memGet(mem, an)
+				nw := ex.fresh("spare_"+an, ex.arrSorts[an])
+				ex.assume(fmt.Sprintf("(forall ((a Int)) (! (=> (not %s) (= (select %s a) (select %s a))) :pattern ((select %s a))))", inSpare("a", sv.T), nw, cur, nw), fr.curReach)
+				ex.memSet(mem, an, nw)
+			}
 		case a.Deref != nil:
 			lv := ec.lvalOf(a.Deref)
 			s := ex.D.sortOf(lv.t)
